@@ -132,7 +132,7 @@ CHECKS = {
     },
     "C15": {
         "explanation": "Notifier.PublishContext with two subscriptions for the key (context possibly cancelled, buffered target possibly full), one with an incompatible element type and one under another key, over every choice reflect.Select may make; registry operations (duplicate/unmatched panics leave the registry unchanged, unsubscribed targets receive nothing); Publish of a nil value.",
-        "quick": [seq("Harness_C15_registry", allow_block=True), seq("Harness_C15_publish", allow_block=True), seq("Harness_C15_publish_nil", allow_block=True)],
+        "quick": [seq("Harness_C15_registry", allow_block=True), seq("Harness_C15_publish", allow_block=True), seq("Harness_C15_publish_nil", allow_block=True), seq("Harness_C15_publish_cancel_during", allow_block=True, instrument=True)],
         "thorough": [],
         "assumptions": ["reflect.Select / ValueOf / Type.AssignableTo are contract stubs (type relations answered by go/types)", "targets are buffered channels (a send case on an unbuffered channel is not modelled)", "<= 2 eligible subscriptions"],
     },
